@@ -381,6 +381,8 @@ def infeasible_edges(cfg, func, avoid_edges=(), start=None):
                 for nm in [x for x in ast.walk(t) if isinstance(x, ast.Name)]:
                     if isinstance(t, ast.Name) and isinstance(s.value, ast.Constant):
                         new[nm.id] = ("c", s.value.value)
+                    elif isinstance(t, ast.Name) and isinstance(s.value, (ast.List, ast.Tuple, ast.Dict, ast.Set)) and not getattr(s.value, "elts", getattr(s.value, "keys", None)):
+                        new[nm.id] = ("c", ())  # an empty container: falsy, iterating it runs no body
                     elif isinstance(t, ast.Name) and _surely_not_none(s.value):
                         new[nm.id] = ("notnone",)
                     elif isinstance(t, ast.Name):
@@ -420,6 +422,12 @@ def infeasible_edges(cfg, func, avoid_edges=(), start=None):
     IN = forward(cfg, tuple(), tr, join, avoid_edges=set(avoid_edges), start=start)
     out = set()
     for t in cfg.live:
+        if t.kind == "for_iter" and IN.get(t) is not None and isinstance(t.ast.iter, ast.Name):
+            v = dict(IN[t]).get(t.ast.iter.id)
+            if v is not None and v != _TOP and v[0] == "c" and v[1] in ((), None):
+                for s_, l in t.succ:
+                    if s_.kind == "for_next":
+                        out.add((s_, "body"))
         if t.kind != "test" or IN.get(t) is None:
             continue
         st = dict(IN[t])
